@@ -33,11 +33,16 @@ class SendTap(object):
     def mark_app_phase(self):
         self.app_phase = True
 
-    def check(self, suite, ver, lim, pipe, probes):
-        """Record-limit invariant on tap + wire. Returns [(rule,sig,msg)]."""
+    def check(self, suite, ver, lim, pipe, probes, allow_tail=False):
+        """Record-limit invariant on tap + wire. Returns [(rule,sig,msg)].
+        allow_tail: the run stopped with an operation in flight, so the last
+        record handed to the record layer may not be (completely) written."""
         out = []
         rp = net.RecordParser()
         wire = rp.feed(bytes(pipe.sent_log))
+        if allow_tail and len(self.records) == len(wire) + 1:
+            self.records = self.records[:-1]
+            rp.buf = bytearray()
         if len(wire) != len(self.records) or rp.buf:
             raise RuntimeError("tap/wire record count mismatch: %d vs %d "
                                "(+%d stray bytes)" % (len(self.records),
